@@ -189,6 +189,9 @@ class Scenario:
             loop.step()
             # map_async polls for a free slot with sleep(0): the ready queue never empties while it waits
             self.idle_steps = self.idle_steps + 1 if len(log.ev) == n0 else 0
+        elif c == "t":
+            loop.step1()
+            self.idle_steps = self.idle_steps + 1 if len(log.ev) == n0 else 0
         elif c == "a":
             t0 = loop.time()
             t = loop.advance()
@@ -198,7 +201,7 @@ class Scenario:
             t = loop.advance(1)
             log.add("time", now=t)
         log.poll()
-        if c != "s" and len(log.ev) > n0:
+        if c not in ("s", "t") and len(log.ev) > n0:
             self.idle_steps = 0
         if len(log.ev) > n0:
             log.ev[-1]["obs"] = self.obs()
@@ -243,6 +246,8 @@ class Scenario:
             return bool(self.cfg.get("faults")) and getattr(self, "nfail", 0) < 3 and any(not f.done() for _, f in self.tasks)
         if c == "s":
             return (loop.live_ready() > 0 or loop.due() > 0) and self.idle_steps < 6
+        if c == "t":
+            return loop.live_ready() > 0 and self.idle_steps < 12
         # the clock moves only while the loop is idle ("timers fire on time")
         if c == "a":
             nt = loop.next_timer()
@@ -331,6 +336,8 @@ def alphabet(cfg):
         al += ["a", "w"]
     if k == "map_async":
         al += ["f", "F"]
+    if cfg.get("fine"):
+        al += ["t"]          # single callbacks instead of whole iterations: emissions / completions fall between two callbacks
     if cfg.get("faults") and k == "map_async":
         al += ["g"]
     elif cfg.get("faults"):
@@ -367,7 +374,7 @@ def enumerate_schedules(cfg, depth, limit, rng):
 
 def random_schedules(cfg, count, maxlen, rng):
     al = alphabet(cfg)
-    w = {"e": 3, "s": 4, "d": 2, "D": 1, "a": 2, "w": 1, "f": 2, "F": 1, "x": 1, "g": 2}
+    w = {"e": 3, "s": 4, "d": 2, "D": 1, "a": 2, "w": 1, "f": 2, "F": 1, "x": 1, "g": 2, "t": 6}
     out = []
     for _ in range(count):
         n = rng.randint(4, maxlen)
